@@ -8,7 +8,8 @@ EXPLANATION = ("Decides on the MIR of the current tree: thread exit takes every 
                "borrow only when the thread has no value, registers it once in the active thread's own map (H2); Lazy::get runs init outside the "
                "borrow, re-checks before registering, init_static refuses an occupied slot, statics live in one execution-wide map (H3); the "
                "init -> access happens-before edge (Y1 lazy rows); destruction at the end of the iteration (K5) and re-creation (I1); destructor "
-               "order is not hash-dependent (Z2). Behaviour under racing first accesses in every interleaving is not decided.")
+               "order is not hash-dependent (Z2). Behaviour under racing first accesses in every interleaving is not decided."
+               " G0/G1 cross-check init_static.")
 RULE_TEXT = "rule instances = teardown steps, init guards, map accessors; non-trivial when matched to concrete MIR sites"
 LEVEL_NOTE = "necessary conditions only"
 
